@@ -183,6 +183,58 @@ func checkSnapshots(p *Prog, r *Report, rule string, only func(*types.Named) boo
 			r.Paths++
 			r.Check(bad == "", rule, cons, pos, fmt.Sprintf("%d store(s), none takes the receiver's %s; no by-value struct copy leaves it shared", len(fieldStores), f), bad+": the snapshot is read without the live object's lock while the live object keeps changing, and a rolling counter's clean-up through the copy zeroes live buckets")
 		}
+		// a snapshot keeps WHEN things happened: a window of plain values (a slice of numbers) is copied slot by slot
+		// from the receiver's, and every time.Time field is the receiver's — a copy rebuilt through the write
+		// path (one Inc of the sum, stamped now) moves all events into the newest slot and they outlive the window
+		for i := 0; i < st.NumFields(); i++ {
+			fld := st.Field(i)
+			f := fld.Name()
+			if sl, ok := fld.Type().Underlying().(*types.Slice); ok {
+				if _, basic := sl.Elem().Underlying().(*types.Basic); !basic {
+					continue
+				}
+				copied := false
+				for _, c := range Calls(fn) {
+					bi, ok := c.Common().Value.(*ssa.Builtin)
+					if !ok || len(c.Common().Args) != 2 {
+						continue
+					}
+					if (bi.Name() == "copy" || bi.Name() == "append") && fromRecvField(c.Common().Args[1], f) {
+						copied = true
+					}
+				}
+				if !copied {
+					// an element-wise loop: a store into an element whose value is an element of the receiver's slice
+					for _, b := range fn.Blocks {
+						for _, in := range b.Instrs {
+							if s2, ok := in.(*ssa.Store); ok {
+								if _, isEl := s2.Addr.(*ssa.IndexAddr); isEl {
+									if u, ok := stripConv(s2.Val).(*ssa.UnOp); ok {
+										if ia, ok := u.X.(*ssa.IndexAddr); ok && fromRecvField(ia.X, f) {
+											copied = true
+										}
+									}
+								}
+							}
+						}
+					}
+				}
+				r.Paths++
+				r.Check(copied, rule, what+": the window "+f+" is copied slot by slot", p.FuncPos(fn), "copy / append / element loop from the receiver's "+f,
+					"the copy's "+f+" is not filled from the receiver's slots: events keep their count but lose their age (all land in one slot), so the copy reports events older than the window")
+			}
+			if isTimeT(fld.Type()) {
+				kept := false
+				for _, s2 := range FieldStores(fn, rn, f) {
+					if _, _, base, ok := fieldOf(s2.Addr); ok && base == ssa.Value(obj) && fromRecvField(s2.Val, f) {
+						kept = true
+					}
+				}
+				r.Paths++
+				r.Check(kept, rule, what+": the time stamp "+f+" is the receiver's", p.FuncPos(fn), "copy."+f+" = receiver."+f,
+					"the copy's "+f+" is not taken from the live object: the copy's clean-up measures idleness from the wrong instant and stale slots survive")
+			}
+		}
 	}
 	return n
 }
